@@ -24,7 +24,7 @@ META = {
                   'judged by TLC.',
     'level_note': 'Trusted: TLC/SANY, CommunityModules, pysam (tabix_compress/tabix_index and VariantFile as VCF parser), the '
                   'generator (abstract VCF first, text derived). Not covered: uglyMode (unindexed VCF), sites-only VCFs, '
-                  'region_start/region_end, two records at one position, concurrent instances writing the same cache file, '
+                  'region_start/region_end, two records at one position, records with more than 6 alleles in unphased mode, concurrent instances writing the same cache file, '
                   'the DA tag path through Molecule (only getAllelesAt / has_location are observed).',
     'design_ref': '3.18',
 }
@@ -52,7 +52,7 @@ def key_fn(ev, clause):
     stale = any(p['cache'] and (json.dumps(p['sel']), json.dumps(p['ign']), p['phased']) != cfg for p in h['runs'][:ri])
     contig = 'absent_contig' if o['c'] in ev['absent'] else 'known_contig'
     ans = ('ans_true' if o['ans'] else 'ans_false') if o['op'] == 'has' else ('ans_some' if o['ans'] else 'ans_none')
-    return '|'.join([base, mode, o['op'], contig, ans] + (['after_other_config_used_the_cache'] if stale and r['cache'] else []))
+    return '|'.join([base, mode] + ([] if r['phased'] else ['unphased']) + [o['op'], contig, ans] + (['after_other_config_used_the_cache'] if stale and r['cache'] else []))
 
 
 def what_fn(ev, clause):
@@ -61,8 +61,8 @@ def what_fn(ev, clause):
         return clause
     site = [s for s in ev['sites'] if s['c'] == o['c'] and s['p'] == o['p']]
     ri = h['runs'].index(r)
-    return '%s: run %d of a %s history, flags lazyLoad=%s use_cache=%s select=%s ignore=%s: %s(%s,%d%s) returned %s; VCF site: %s; earlier runs: %s' % (
-        clause, ri + 1, h['kind'], r['lazy'], r['cache'], r['sel']['s'] if r['sel']['explicit'] else None, r['ign'] or None,
+    return '%s: run %d of a %s history, flags lazyLoad=%s use_cache=%s phased=%s select=%s ignore=%s: %s(%s,%d%s) returned %s; VCF site: %s; earlier runs: %s' % (
+        clause, ri + 1, h['kind'], r['lazy'], r['cache'], r['phased'], r['sel']['s'] if r['sel']['explicit'] else None, r['ign'] or None,
         'getAllelesAt' if o['op'] == 'get' else 'has_location', o['c'], o['p'], (',' + o['b']) if o['op'] == 'get' else '',
         o['ans'], json.dumps(site[0]) if site else 'none (contigs in VCF: %s)' % ev['contigs'],
         [[MODE[(p['lazy'], p['cache'])], p['ign'], p['phased']] for p in h['runs'][:ri]])
@@ -74,18 +74,21 @@ def run(tier):
         vlib.sany(m)
     if tier == 'quick':
         c.mc_pass('Alleles', 'MC_Alleles_design_q.cfg', workers=8, timeout=900)
+        c.mc_pass('Alleles', 'MC_Alleles_phase_q.cfg', workers=8, timeout=900)
         c.mc_pass('Alleles', 'MC_Alleles_rules_q.cfg', workers=4, timeout=900,
                   actions_required=['StartRun', 'Query', 'FetchVCF', 'FetchAbsent', 'Answer'])
     else:
         c.mc_pass('Alleles', 'MC_Alleles_design_t.cfg', workers=12, timeout=1500)
         c.mc_pass('Alleles', 'MC_Alleles_design_t2.cfg', workers=12, timeout=1500)
         c.mc_pass('Alleles', 'MC_Alleles_design_t3.cfg', workers=8, timeout=1500)
+        c.mc_pass('Alleles', 'MC_Alleles_phase_q.cfg', workers=8, timeout=900)
         c.mc_pass('Alleles', 'MC_Alleles_rules_t.cfg', workers=8, timeout=1500,
                   actions_required=['StartRun', 'Query', 'FetchVCF', 'FetchAbsent', 'Answer'])
     c.mc_negative('Alleles', 'MC_Alleles_impl_lazyflag_q.cfg', expect_inv='Inv_C18_Truth', workers=4)
     c.mc_negative('Alleles', 'MC_Alleles_impl_hasloc_q.cfg', expect_inv='Inv_C18_Truth', workers=4)
     c.mc_negative('Alleles', 'MC_Alleles_mut_ign_listed_q.cfg', expect_inv='Inv_C18_Truth', workers=4)
     c.mc_negative('Alleles', 'MC_Alleles_mut_record_snv_q.cfg', expect_inv='Inv_C18_Truth', workers=4)
+    c.mc_negative('Alleles', 'MC_Alleles_mut_unphased_alts_q.cfg', expect_inv='Inv_C18_Truth', workers=4)
     c.mc_negative('Alleles', 'MC_Alleles_impl_cachekey_q.cfg', expect_inv='Inv_C18_CacheSound', workers=4)
     c.mc_negative('Alleles', 'MC_Alleles_impl_cachekey_truth_q.cfg', expect_inv=['Inv_C18_Truth', 'Inv_C18_ModeEq'], workers=4)
 
